@@ -260,6 +260,12 @@ class Check:
                     # another context): nothing of the first call may leak into it
                     sc2 = {k: v for k, v in sc.items() if k not in ('cached', 'bust_cache', 'run_task', 'prelude')}
                     sc2.update({'storage': 'none', 'gen_main': 7, 'backend': ch.stream('config').pick(['serial', sc['backend'], 'sim'])})
+                    if 'fail' in sc and ch.stream('config').chance(1, 2):
+                        # tasks that succeeded in the first call fail in the second
+                        more = {str(n['id']): 'raise' for n in sc['nodes'] if ch.stream('fault').chance(1, 4)}
+                        sc2['fail'] = {**more, **(sc.get('fail') or {})}
+                        sc2.pop('kills', None)
+                        sc2['fail'] = {k: ('raise' if v == 'die' else v) for k, v in sc2['fail'].items()}
                     out2 = execute(sc2, ch, None, built=out.built)
                     facts2 = O.Facts(sc2, out2)
                     for v in self.oracle(sc2, out2, facts2):
